@@ -5,7 +5,7 @@ tier=${1:-quick}
 ids=$(python3 -c "import json;print(' '.join(c['property_id'] for c in json.load(open('MANIFEST.json'))['checks']))")
 for id in ${2:-$ids}; do
   s=$(date +%s)
-  ./check $id --tier $tier > /var/tmp/runall_$id.log 2>&1
+  ./check $id --tier $tier $EXTRA > /var/tmp/runall_${tier}_$id.log 2>&1
   rc=$?
-  echo "$id rc=$rc $(( $(date +%s) - s ))s $(tail -1 /var/tmp/runall_$id.log | cut -c1-150)"
+  echo "$id rc=$rc $(( $(date +%s) - s ))s $(grep -E "tier=" /var/tmp/runall_${tier}_$id.log | tail -1 | cut -c1-150)"
 done
